@@ -110,4 +110,4 @@ theorem single_template_search (env : Env) (builtins : List (Bytes × Bytes)) (t
     ⟨fun P i h => (hmem1 P i).2 ((single_route_mem parts _ hwf P i).1 h),
      fun P i h => Or.inl ((single_route_mem parts _ hwf P i).2 ((hmem1 P i).1 h))⟩]
   rw [refWalk_single env path.length parts _ path [] (statsNE_of_wf _ hwf) (Nat.le_refl _)]
-  cases greedy env parts path <;> simp [inlineInfo]
+  cases greedy env parts path <;> simp [inlineInfo, toMatch]
